@@ -563,7 +563,7 @@ func parse3dExtension(r *bits.EBSPReader) (*D3Extension, error) {
 				if layer.DltValFlagsPresentFlag {
 					// variable depthMaxValue is set equal to ( 1 << ( pps_bit_depth_for_depth_layers_minus8 + 8 ) ) − 1
 					depthMaxValue := (1 << (ext.BitDepthForDepthLayersMinus8 + 8)) - 1
-					for j := 0; j <= depthMaxValue; j++ {
+					for j := 0; j <= depthMaxValue && r.AccError() == nil; j++ {
 						layer.DltValueFlag = append(layer.DltValueFlag, r.ReadFlag())
 					}
 				} else {
@@ -599,7 +599,7 @@ func parseDeltaDlt(r *bits.EBSPReader, BitDepthForDepthLayers int) (*DeltaDlt, e
 		}
 		dd.DeltaDltVal0 = r.Read(BitDepthForDepthLayers)
 		if dd.MaxDiff > (dd.MinDiffMinus1 + 1) {
-			for k := uint(1); k < dd.NumValDeltaDlt; k++ {
+			for k := uint(1); k < dd.NumValDeltaDlt && r.AccError() == nil; k++ {
 				// variable minDiff is set equal to ( min_diff_minus1 + 1 )
 				// length of delta_val_diff_minus_min[ k ] syntax element is Ceil( Log2( max_diff − minDiff + 1 ) ) bits
 				dd.DeltaValDiffMinusMin =
